@@ -132,6 +132,20 @@ func (se seqEngine) Generate(rng *rand.Rand, prop string, thorough bool) *Plan {
 	cfg.NKeys = len(keys)
 	p.SetKeys(keys)
 	ops := append(pre, GenSeqOps(rng, cfg, g, &id)...)
+	if prop == "C02" && rng.Intn(4) == 0 {
+		// a write to a metadata file fails (ENOSPC) during one Close: that Close must not report success
+		// unless everything is in place; after a reported failure the next Open recovers
+		var pos []int
+		for i, op := range ops {
+			if op.K == "close" {
+				pos = append(pos, i)
+			}
+		}
+		if len(pos) > 0 {
+			i := pos[rng.Intn(len(pos))]
+			ops = append(ops[:i:i], append([]Op{{K: "closefail", Size: rng.Intn(6)}}, ops[i:]...)...)
+		}
+	}
 	if prop == "C16" {
 		// sprinkle limit probes
 		extra := []string{"put-longkey", "put-longkey-alias", "get-longkey", "has-longkey", "del-longkey", "put-bigvalue"}
@@ -145,7 +159,7 @@ func (se seqEngine) Generate(rng *rand.Rand, prop string, thorough bool) *Plan {
 			}
 		}
 	}
-	if prop == "C16" && os.Getenv("VERIF_BIG") != "" && (bigRuns == 0 || (thorough && bigRuns%40 == 0)) {
+	if prop == "C16" && os.Getenv("VERIF_BIG") != "" && (bigRuns == 1 || (thorough && bigRuns%40 == 1)) {
 		// a value of exactly the 512 MiB limit, then an unclean shutdown, recovery and a compaction
 		// (one worker only: about 3 GiB of memory for a few seconds)
 		for pos := len(ops); pos >= 0; pos-- {
@@ -164,6 +178,22 @@ func (se seqEngine) Generate(rng *rand.Rand, prop string, thorough bool) *Plan {
 			}
 		}
 	}
+	if prop == "C16" && os.Getenv("VERIF_BIG") != "" && (bigRuns == 0 || (thorough && bigRuns%40 == 0)) {
+		// default segment limit (4 GiB - 1) and a current segment a few bytes below it: the records that
+		// follow exceed the remaining space and must go to a new segment, offsets must not wrap
+		p.Cfg.MaxSeg, p.Cfg.CompMinSeg, p.Cfg.CompFrag = 0, 0, 0
+		p.Cfg.Alias, p.Cfg.Poison, p.Cfg.ShortReads = false, false, false
+		ops = []Op{{K: "near-4gib", Size: 50 + rng.Intn(400)}}
+		id := 1 << 20
+		for i := 0; i < 12; i++ {
+			id++
+			ops = append(ops, Op{K: "put", Key: rng.Intn(cfg.NKeys), ID: id, Size: []int{0, 1, 60, 506, 4090}[rng.Intn(5)]})
+			if rng.Intn(3) == 0 {
+				ops = append(ops, Op{K: "get", Key: rng.Intn(cfg.NKeys)})
+			}
+		}
+		ops = append(ops, Op{K: "close"}, Op{K: "open"}, Op{K: "count"})
+	}
 	if prop == "C16" {
 		bigRuns++
 	}
@@ -171,7 +201,12 @@ func (se seqEngine) Generate(rng *rand.Rand, prop string, thorough bool) *Plan {
 	return p
 }
 
-var bigRuns int
+var bigRuns = func() int {
+	if os.Getenv("VERIF_BIGSHAPE") == "maxvalue" {
+		return 1 // development aid: start with the 512 MiB value
+	}
+	return 0
+}()
 
 func openAt(ops []Op, pos int) bool {
 	open := true
@@ -216,6 +251,8 @@ func (se seqEngine) Execute(p *Plan) *RunResult {
 	mutatedThisSession := true
 	var segAtOpen uint64
 	states := map[uint64]bool{}
+	noStructure := false // a run with a procedural multi-gigabyte file: nothing that reads whole files
+	uncleanClose := false
 	for i, op := range p.Tasks[0] {
 		// tolerate plans mangled by minimisation
 		if !open && op.K != "open" {
@@ -229,7 +266,10 @@ func (se seqEngine) Execute(p *Plan) *RunResult {
 			mutatedThisSession = true
 		}
 		var v *Violation
-		if strings.Contains(op.K, "-long") || op.K == "put-bigvalue" || op.K == "put-maxvalue" {
+		if op.K == "near-4gib" {
+			v = e.doNear4GiB(op)
+			noStructure = true
+		} else if strings.Contains(op.K, "-long") || op.K == "put-bigvalue" || op.K == "put-maxvalue" {
 			v = e.doLimit(op)
 		} else {
 			v = e.Do(op)
@@ -246,6 +286,15 @@ func (se seqEngine) Execute(p *Plan) *RunResult {
 		switch op.K {
 		case "close":
 			open = false
+			if e.UncleanClose {
+				// Close failed with the injected write error: the session did not complete Close
+				uncleanClose = true
+				e.UncleanClose = false
+				break
+			}
+			if noStructure {
+				break
+			}
 			if v := e.CheckStructure(true); v != nil {
 				v.Detail = "after Close at op#" + itoa(i) + ": " + v.Detail
 				return fail(v)
@@ -261,12 +310,23 @@ func (se seqEngine) Execute(p *Plan) *RunResult {
 		case "open":
 			open = true
 			mutatedThisSession = false
-			segAtOpen = segmentDigest(e.FS)
-			if e.lastOpenRecovered {
-				return fail(violf("clean-reopen-recovered", "op#%d: Open after a clean Close ran recovery", i))
+			if !noStructure {
+				segAtOpen = segmentDigest(e.FS)
 			}
-			if e.Probes["segment_truncated"] > 0 || e.Probes["recovery_moved_file"] > 0 {
-				return fail(violf("clean-reopen-recovered", "op#%d: Open after a clean Close truncated a segment or moved files aside", i))
+			if uncleanClose {
+				uncleanClose = false
+				if !e.lastOpenRecovered {
+					return fail(violf("failed-close-not-recovered", "op#%d: the previous Close returned an error (injected write error), yet this Open did not run recovery", i))
+				}
+				e.Probes["segment_truncated"], e.Probes["recovery_moved_file"] = 0, 0
+				e.Probes["reopen_after_failed_close"]++
+			} else {
+				if e.lastOpenRecovered {
+					return fail(violf("clean-reopen-recovered", "op#%d: Open after a clean Close ran recovery", i))
+				}
+				if e.Probes["segment_truncated"] > 0 || e.Probes["recovery_moved_file"] > 0 {
+					return fail(violf("clean-reopen-recovered", "op#%d: Open after a clean Close truncated a segment or moved files aside", i))
+				}
 			}
 			if v := e.CheckContents(); v != nil {
 				v.Detail = "after reopen at op#" + itoa(i) + ": " + v.Detail
@@ -274,7 +334,7 @@ func (se seqEngine) Execute(p *Plan) *RunResult {
 			}
 			e.Probes["clean_reopen"]++
 		}
-		if open && (i%16 == 15 || op.K == "compact") {
+		if open && !noStructure && (i%16 == 15 || op.K == "compact") {
 			if v := e.CheckStructure(false); v != nil {
 				v.Detail = "after op#" + itoa(i) + " " + op.String() + ": " + v.Detail
 				return fail(v)
@@ -286,13 +346,28 @@ func (se seqEngine) Execute(p *Plan) *RunResult {
 		if err := e.Open(); err != nil {
 			return fail(violf("open-failed", "final Open: %v", err))
 		}
-		if e.lastOpenRecovered {
+		if e.lastOpenRecovered && !uncleanClose {
 			return fail(violf("clean-reopen-recovered", "final Open after a clean Close ran recovery"))
+		}
+		if !e.lastOpenRecovered && uncleanClose {
+			return fail(violf("failed-close-not-recovered", "the previous Close returned an error (injected write error), yet the final Open did not run recovery"))
 		}
 	}
 	if v := e.CheckContents(); v != nil {
 		v.Detail = "final check: " + v.Detail
 		return fail(v)
+	}
+	if noStructure {
+		if err := e.DB.Close(); err != nil {
+			return fail(violf("api-error", "final Close: %v", err))
+		}
+		for _, n := range e.FS.FileNames() {
+			if strings.HasSuffix(n, ".psg") && e.FS.FileSize(n) > 1<<32-1 {
+				return fail(violf("segment-larger-than-4gib", "segment %s is %d bytes long: record offsets are 32 bits", n, e.FS.FileSize(n)))
+			}
+		}
+		res.NonTrivial = true
+		return res
 	}
 	if v := e.CheckStructure(false); v != nil {
 		v.Detail = "final check: " + v.Detail
@@ -524,4 +599,46 @@ func indexOfKey(keys [][]byte, k []byte) int {
 		}
 	}
 	return 0
+}
+
+// doNear4GiB turns the current segment into one that is a few bytes short of the default segment limit
+// (4 GiB - 1): one real record, a clean Close, the file extended by a procedural (zero) middle part - a clean
+// Open never reads it -, a clean Open. What is written afterwards lands at offsets near 2^32.
+func (e *Env) doNear4GiB(op Op) *Violation {
+	k := e.key(0)
+	val := MakeValue(0, 1<<19, 16)
+	if err := e.DB.Put(k, val); err != nil {
+		return violf("api-error", "Put: %v", err)
+	}
+	e.Model.Put(k, val)
+	if err := e.DB.Close(); err != nil {
+		return violf("api-error", "Close: %v", err)
+	}
+	seg := ""
+	for _, n := range e.FS.FileNames() {
+		if strings.HasSuffix(n, ".psg") {
+			seg = n
+		}
+	}
+	if seg == "" {
+		return violf("harness", "no segment file")
+	}
+	real := append([]byte(nil), e.FS.FileBytes(seg)...)
+	length := int64(1<<32) - int64(op.Size)
+	e.FS.SetVirtualPrefix(seg, length, func(off int64, p []byte) {
+		for i := range p {
+			p[i] = 0
+		}
+		if off < int64(len(real)) {
+			copy(p, real[off:])
+		}
+	})
+	if err := e.Open(); err != nil {
+		return violf("open-failed", "Open with a segment of %d bytes: %v", length, err)
+	}
+	if e.lastOpenRecovered {
+		return violf("clean-reopen-recovered", "Open after a clean Close ran recovery")
+	}
+	e.Probes["segment_near_4gib"]++
+	return nil
 }
